@@ -596,3 +596,163 @@ Proof.
   eexists. eexists. split; [vm_compute; reflexivity|]. split; [reflexivity|]. split; [reflexivity|].
   split; [vm_compute; reflexivity|]. repeat split; try (vm_compute; reflexivity). vm_compute. discriminate.
 Qed.
+
+(* ================================================================================================= *)
+(* 14 (solid entries): data is kept as it is, so parse . serialise is the identity                    *)
+(* ================================================================================================= *)
+Definition is_known_solid (c : chunk) : bool := ty_is c SEND || ty_is c SHED || ty_is c SDAT || ty_is c PHSF.
+Definition shed_ok (h : shed) : Prop := s_major h < 256 /\ s_minor h < 256.
+Definition wf_solid (e : solid_entry) : Prop :=
+  shed_ok (so_hdr e) /\ opt_all (fun s => utf8_valid s = true) (so_phsf e) /\
+  Forall (fun c => is_known_solid c = false) (so_extra e).
+
+Lemma shed_dec_wf bs h : shed_of_bytes bs = Ok h -> shed_ok h.
+Proof.
+  unfold shed_of_bytes. do 6 (destruct bs as [|? bs]; try discriminate).
+  destruct (comp_of_n _); [|discriminate]. destruct (enc_of_n _); [|discriminate].
+  destruct (mode_of_n _); [|discriminate]. cbn [opt_res bind]. intros [= <-].
+  split; cbn [s_major s_minor]; apply b2n_lt.
+Qed.
+
+Lemma is_known_solid_false c : is_known_solid c = false ->
+  ty_is c SEND = false /\ ty_is c SHED = false /\ ty_is c SDAT = false /\ ty_is c PHSF = false.
+Proof. unfold is_known_solid. rewrite !orb_false_iff. tauto. Qed.
+
+Lemma parse_solid_loop_wf cs : forall i p d x i' p' d' x',
+  opt_all shed_ok i -> opt_all (fun s => utf8_valid s = true) p -> Forall (fun c => is_known_solid c = false) x ->
+  parse_solid_loop cs i p d x = Ok (i', p', d', x') ->
+  opt_all shed_ok i' /\ opt_all (fun s => utf8_valid s = true) p' /\ Forall (fun c => is_known_solid c = false) x'.
+Proof.
+  induction cs as [|c cs IH]; intros i p d x i' p' d' x' Hi Hp Hx; cbn [parse_solid_loop];
+    [intros [= <- <- <- <-]; auto|].
+  destruct (ty_is c SEND) eqn:T0; [intros [= <- <- <- <-]; auto|].
+  destruct (ty_is c SHED) eqn:T1.
+  { destruct (shed_of_bytes (cdata c)) as [h| |] eqn:E; cbn [bind]; try discriminate.
+    apply IH; try assumption. cbn [opt_all]. apply (shed_dec_wf _ _ E). }
+  destruct (ty_is c SDAT) eqn:T2; [apply IH; assumption|].
+  destruct (ty_is c PHSF) eqn:T3.
+  { destruct (utf8_string (cdata c)) as [s| |] eqn:E; cbn [bind]; try discriminate.
+    apply IH; try assumption. cbn [opt_all]. apply (utf8_string_ok _ _ E). }
+  apply IH; try assumption. apply Forall_app. split; [exact Hx|]. constructor; [|constructor].
+  unfold is_known_solid. rewrite T0, T1, T2, T3. reflexivity.
+Qed.
+
+Lemma parse_solid_wf cs e : parse_solid cs = Ok e -> wf_solid e.
+Proof.
+  unfold parse_solid. destruct cs as [|c cs]; [discriminate|].
+  destruct (negb (ty_is c SHED)); [discriminate|].
+  destruct (parse_solid_loop (c :: cs) None None [] []) as [[[[i p] d] x]| |] eqn:E; cbn [bind]; try discriminate.
+  apply parse_solid_loop_wf in E; try exact I; [|constructor]. destruct E as (Hi & Hp & Hx).
+  destruct i as [h|]; [|discriminate]. intros [= <-]. unfold wf_solid. cbn [so_hdr so_phsf so_extra]. auto.
+Qed.
+
+Section SolidSegments.
+Variable rest : list chunk.
+
+Lemma sseg_shed h i p d x : shed_ok h ->
+  parse_solid_loop (mk SHED (shed_to_bytes h) :: rest) i p d x = parse_solid_loop rest (Some h) p d x.
+Proof.
+  intros [H1 H2]. cbn [parse_solid_loop]. tysimp. cbn [cdata mk]. rewrite shed_inv by assumption. reflexivity.
+Qed.
+
+Lemma sseg_extra ex : Forall (fun c => is_known_solid c = false) ex -> forall i p d x,
+  parse_solid_loop (ex ++ rest) i p d x = parse_solid_loop rest i p d (x ++ ex).
+Proof.
+  induction 1 as [|c ex Hc _ IH]; intros i p d x; [rewrite app_nil_r; reflexivity|].
+  cbn [app parse_solid_loop]. destruct (is_known_solid_false c Hc) as (-> & -> & -> & ->).
+  rewrite IH, <- app_assoc. reflexivity.
+Qed.
+
+Lemma sseg_phsf o i p d x : opt_all (fun s => utf8_valid s = true) o ->
+  parse_solid_loop (opt_chunk PHSF (fun s => s) o ++ rest) i p d x =
+  parse_solid_loop rest i (match o with Some s => Some s | None => p end) d x.
+Proof.
+  destruct o as [s|]; cbn [opt_all opt_chunk app]; [|reflexivity]. intros H.
+  cbn [parse_solid_loop]. tysimp. cbn [cdata mk]. unfold utf8_string. rewrite H. reflexivity.
+Qed.
+
+Lemma sseg_data ds : forall i p d x,
+  parse_solid_loop (map (mk SDAT) ds ++ rest) i p d x = parse_solid_loop rest i p (d ++ ds) x.
+Proof.
+  induction ds as [|y ds IH]; intros i p d x; [rewrite app_nil_r; reflexivity|].
+  cbn [map app parse_solid_loop]. tysimp. cbn [cdata mk]. rewrite IH, <- app_assoc. reflexivity.
+Qed.
+End SolidSegments.
+
+Lemma sseg_send i p d x : parse_solid_loop [mk SEND []] i p d x = Ok (i, p, d, x).
+Proof. cbn [parse_solid_loop]. tysimp. reflexivity. Qed.
+
+Lemma parse_ser_solid_wf e : wf_solid e -> parse_solid (ser_solid e) = Ok e.
+Proof.
+  intros (H1 & H2 & H3). destruct e as [h ph ds ex]. cbn [so_hdr so_phsf so_extra] in *.
+  unfold parse_solid, ser_solid. cbn [so_hdr so_phsf so_data so_extra app]. tysimp. cbn [negb].
+  rewrite sseg_shed by exact H1. rewrite sseg_extra by exact H3. rewrite sseg_phsf by exact H2.
+  rewrite sseg_data, sseg_send. cbn [bind app]. destruct ph; reflexivity.
+Qed.
+
+Theorem parse_ser_solid cs e : parse_solid cs = Ok e ->
+  exists e', parse_solid (ser_solid e) = Ok e' /\ e' = e.
+Proof. intros H. exists e. split; [apply parse_ser_solid_wf, (parse_solid_wf _ _ H)|reflexivity]. Qed.
+
+Theorem ser_stable_solid cs e e' : parse_solid cs = Ok e -> parse_solid (ser_solid e) = Ok e' ->
+  ser_solid e' = ser_solid e.
+Proof. intros H H'. destruct (parse_ser_solid _ _ H) as (e2 & E2 & ->). rewrite E2 in H'. injection H' as <-. reflexivity. Qed.
+
+Theorem extras_survive_solid cs e e' : parse_solid cs = Ok e -> parse_solid (ser_solid e) = Ok e' ->
+  so_extra e' = so_extra e /\ so_data e' = so_data e.
+Proof. intros H H'. destruct (parse_ser_solid _ _ H) as (e2 & E2 & ->). rewrite E2 in H'. injection H' as <-. auto. Qed.
+
+Example parse_ser_solid_ex : exists e,
+  parse_solid [mk SHED [x00; x00; x00; x00; x00]; mk (T "abCd") [x07]; mk SDAT []; mk SDAT [x01]; mk SEND []; mk SDAT [x02]] = Ok e /\
+  so_data e = [[]; [x01]] /\ so_extra e = [mk (T "abCd") [x07]] /\ parse_solid (ser_solid e) = Ok e.
+Proof. eexists. split; [vm_compute; reflexivity|]. repeat split. Qed.
+
+(* ---- parse_entry / ser_entry ------------------------------------------------------------------------ *)
+Definition normalize_entry (e : read_entry) : read_entry :=
+  match e with RNormal n => RNormal (normalize n) | RSolid s => RSolid s end.
+
+Lemma ser_normal_head n : exists tl, ser_normal n = mk FHED (fhed_to_bytes (n_hdr n)) :: tl.
+Proof. unfold ser_normal. cbv zeta. cbn [app]. eexists. reflexivity. Qed.
+Lemma ser_solid_head s : exists tl, ser_solid s = mk SHED (shed_to_bytes (so_hdr s)) :: tl.
+Proof. unfold ser_solid. cbn [app]. eexists. reflexivity. Qed.
+
+Theorem parse_ser_entry cs e : parse_entry cs = Ok e ->
+  exists e', parse_entry (ser_entry e) = Ok e' /\ e' = normalize_entry e.
+Proof.
+  unfold parse_entry at 1. destruct cs as [|c cs]; [discriminate|].
+  destruct (ty_is c SHED).
+  - destruct (parse_solid (c :: cs)) as [s| |] eqn:E; cbn [bind]; try discriminate. intros [= <-].
+    exists (RSolid s). split; [|reflexivity]. cbn [ser_entry].
+    destruct (ser_solid_head s) as [tl Etl]. unfold parse_entry. rewrite Etl. tysimp. rewrite <- Etl.
+    rewrite (parse_ser_solid_wf s (parse_solid_wf _ _ E)). reflexivity.
+  - destruct (ty_is c FHED); [|discriminate].
+    destruct (parse_normal (c :: cs)) as [n| |] eqn:E; cbn [bind]; try discriminate. intros [= <-].
+    exists (RNormal (normalize n)). split; [|reflexivity]. cbn [ser_entry].
+    destruct (ser_normal_head n) as [tl Etl]. unfold parse_entry. rewrite Etl. tysimp. rewrite <- Etl.
+    rewrite (parse_ser_wf n (parse_normal_wf _ _ E)). reflexivity.
+Qed.
+
+Lemma ser_normalize_entry e : ser_entry (normalize_entry e) = ser_entry e.
+Proof. destruct e; cbn [normalize_entry ser_entry]; [apply ser_normalize|reflexivity]. Qed.
+
+Theorem ser_stable_entry cs e e' : parse_entry cs = Ok e -> parse_entry (ser_entry e) = Ok e' ->
+  ser_entry e' = ser_entry e.
+Proof.
+  intros H H'. destruct (parse_ser_entry _ _ H) as (e2 & E2 & ->). rewrite E2 in H'. injection H' as <-.
+  apply ser_normalize_entry.
+Qed.
+
+Definition extra_of (e : read_entry) : list chunk :=
+  match e with RNormal n => n_extra n | RSolid s => so_extra s end.
+
+Theorem extras_survive_entry cs e e' : parse_entry cs = Ok e -> parse_entry (ser_entry e) = Ok e' ->
+  extra_of e' = extra_of e.
+Proof.
+  intros H H'. destruct (parse_ser_entry _ _ H) as (e2 & E2 & ->). rewrite E2 in H'. injection H' as <-.
+  destruct e; reflexivity.
+Qed.
+
+Example parse_ser_entry_ex : exists e e',
+  parse_entry ex_normal_chunks = Ok e /\ parse_entry (ser_entry e) = Ok e' /\
+  ser_entry e' = ser_entry e /\ extra_of e' = [mk (T "zzZz") [x01; x02]].
+Proof. eexists. eexists. split; [vm_compute; reflexivity|]. split; [vm_compute; reflexivity|]. split; vm_compute; reflexivity. Qed.
